@@ -5,10 +5,10 @@ V = os.path.dirname(os.path.abspath(__file__))
 m = json.load(open(V + '/MANIFEST.json'))
 kf = json.load(open(V + '/known_findings.json'))['findings']
 rows = ["| id | spec module(s) | level | quick: wall s / model states / impl. events / traces | fixes found by it | known findings it reports |", "|---|---|---|---|---|---|"]
-mods = {"C01": "Channel, ChannelGhost", "C02": "Channel", "C03": "Channel", "C04": "Channel + ChannelCloseMC/Trace", "C05": "Channel + ChannelCloseMC/Trace",
-        "C06": "Shachain, Channel", "C07": "CircuitMap", "C08": "Forwarding(Rules)", "C09": "ForwardPolicy(Rules/Apa)", "C10": "TlvStream(Tok), WireLaws",
-        "C11": "Transport", "C12": "ChainActions", "C13": "Arbitrator", "C14": "TxNotifier", "C15": "InvoiceRegistry", "C16": "PaymentStore",
-        "C17": "CoopClose", "C18": "SweepFee", "C19": "Route", "C20": "Gossip"}
+mods = {"C01": "Channel, ChannelGhost", "C02": "Channel (+dack, LiveRefresh)", "C03": "Channel, LinkResync", "C04": "Channel + ChannelCloseMC/Trace", "C05": "Channel + ChannelCloseMC/Trace (+watcher, anchors)",
+        "C06": "Shachain, Channel (+RecvBadRev)", "C07": "CircuitMap, SwitchForward, SwitchResponse", "C08": "Forwarding(Rules), SwitchAck, Mailbox, CloseKeys", "C09": "ForwardPolicy(Rules/Apa/Aux), SwitchPolicy, SwitchInbound", "C10": "TlvStream(Tok), WireLaws, WireExt",
+        "C11": "Transport", "C12": "ChainActions, ChainActionsHist, ChainActionsConf", "C13": "Arbitrator, BreachJustice, SwitchRes", "C14": "TxNotifier, CatchUp", "C15": "InvoiceRegistry", "C16": "PaymentStore",
+        "C17": "CoopClose (tx, neg, rbf, rbfm, peer)", "C18": "SweepFee, SweepLife", "C19": "Route (+RouteGenD)", "C20": "Gossip, GossipProof"}
 for c in m['checks']:
     pid = c['property_id']
     ev = {}
